@@ -325,3 +325,49 @@ Definition op_amt (o : op) : Z := match o with ORecord _ a => a | ORead _ => 0 e
 Definition ops_amt (l : list op) : Z := sumZ (map op_amt l).
 Definition total_amt (progs : list (list op)) : Z := sumZ (map ops_amt progs).
 Definition op_nonneg (o : op) : Prop := 0 <= op_amt o.
+
+(* ------------------------------------------------------------------------------------ *)
+(* schedule hypotheses of the C09 theorems (executable, so that examples decide them by vm_compute) *)
+
+(* the thread has an operation in progress: it has read its timestamp and has not finished *)
+Definition active (t : thread) : bool :=
+  match t_ops t with
+  | [] => false
+  | _ => match t_pc t with PBegin | PDone => false | _ => true end
+  end.
+
+(* no operation in progress is older than one bucket length *)
+Definition freshb (g : geom) (c : config) : bool :=
+  forallb (fun t => negb (active t) || (clock (sh c) - t_now t <=? g_bl g)) (thr c).
+
+(* P holds in every configuration the schedule passes through (including the first and the last) *)
+Fixpoint alongb (P : config -> bool) (g : geom) (sched : schedule) (c : config) : bool :=
+  P c && match sched with [] => true | e :: r => alongb P g r (step g c e) end.
+
+(* "no operation is stalled for longer than one bucket length": whenever the clock has advanced by more
+   than g_bl since an operation read its timestamp, that operation has already finished *)
+Definition no_stall (g : geom) (sched : schedule) (c : config) : Prop := alongb (freshb g) g sched c = true.
+
+(* the thread has decided to roll its slot over: parked before the TryLock or inside the critical section *)
+Definition in_cs (p : pc) : bool :=
+  match p with PStoreStart | PZero _ | PZeroMin | PZeroMax | PUnlock => true | _ => false end.
+Definition rolling (t : thread) : bool :=
+  active t && (in_cs (t_pc t) || match t_pc t with PTryLock => true | _ => false end).
+(* the thread has a record operation in progress *)
+Definition act_rec (t : thread) : bool :=
+  active t && match t_ops t with ORecord _ _ :: _ => true | _ => false end.
+
+Definition indexed {A} (l : list A) : list (nat * A) := combine (seq 0 (length l)) l.
+
+(* a record operation is in progress on a slot that a different thread is rolling over *)
+Definition overlapb (g : geom) (c : config) : bool :=
+  existsb (fun p => existsb (fun q =>
+      negb (Nat.eqb (fst p) (fst q)) && rolling (snd p) && act_rec (snd q)
+      && Nat.eqb (bidx g (t_now (snd p))) (bidx g (t_now (snd q))))
+    (indexed (thr c))) (indexed (thr c)).
+
+Definition no_overlap (g : geom) (sched : schedule) (c : config) : Prop :=
+  alongb (fun c => negb (overlapb g c)) g sched c = true.
+
+(* every thread has finished its program *)
+Definition all_done (c : config) : bool := forallb (fun t => match t_ops t with [] => true | _ => false end) (thr c).
